@@ -19,7 +19,7 @@ Definition validation_passes : list (string * bool) :=
    ("convertGenericReferences", true);
    ("validateResolvedMapKeys", true);
    ("validateUnionCases", true);
-   ("validateEnums", false);
+   ("validateEnums", true);
    ("resolveComputedFields", true);
    ("removeUnusedDeclarationPatterns", true);
    ("validateGenericParametersUsed", true)].
